@@ -590,6 +590,9 @@ def plan_ops(seed, tier, metrics_bias=False):
                 b.op(**op)
             elif k < 0.8:
                 attr = rng.choice(["cost", "x", "size", "Weight"])
+                if rng.random() < 0.25:
+                    # a name that differs only in letter case from one the models carry
+                    attr = rng.choice(["Cost", "COST", "X", "Size", "weight", "WEIGHT"])
                 dom = _rand_domain(rng)
                 b.op(op="RANDATTR", m=h, attr=attr, domain=dom, withdraw=dom is None and
                      rng.random() < 0.6,
@@ -1112,7 +1115,7 @@ def plan_threads(focus, seed, tier):
                     small["size"] = rng.choice(["s", "s", "m"])
                     dom = _rand_domain(rng)
                     lane.append({"k": "A", "ref": gen.gen_model(rng, "whole", pool, small),
-                                 "attr": rng.choice(["cost", "x", "size", "Weight"]),
+                                 "attr": rng.choice(["cost", "x", "size", "Weight", "Cost", "X"]),
                                  "domain": dom, "only_leaf": rng.random() < 0.4})
                 elif focus == "ops" or (focus == "writers" and rng.random() < 0.2):
                     name = rng.choice(OPS + ["FMMetrics"])
